@@ -303,7 +303,8 @@ impl<'buf> ModuleReader<'buf> {
             (Some(addr), Some(size), Some(offset)) => {
                 // If loaded in memory, the address will be altered to be absolute.
                 if offset < size {
-                    self.read_name_from_strtab(self.module_memory.absolute(addr), size, offset)
+                    let strtab_offset = self.locate_address(&program_headers, addr);
+                    self.read_name_from_strtab(strtab_offset, size, offset)
                 } else {
                     log::warn!("soname strtab offset ({offset}) exceeds strtab size ({size})");
                     Err(Error::NoSoNameEntry)
@@ -409,6 +410,29 @@ impl<'buf> ModuleReader<'buf> {
         let len = std::cmp::min(4096, text_header.sh_size);
         let text_data = self.module_memory.read(text_header.sh_offset, len)?;
         Ok(build_id_from_bytes(&text_data))
+    }
+
+    /// Where the contents of virtual address `addr` are found in the module memory.
+    ///
+    /// If loaded in memory, the address will be altered to be absolute. In a file, it is the file
+    /// offset of that address within the loadable segment containing it (the two only coincide
+    /// when the segment is mapped at its file offset).
+    fn locate_address(&self, program_headers: &elf::ProgramHeaders, addr: u64) -> u64 {
+        if self.module_memory.is_process_memory() {
+            return self.module_memory.absolute(addr);
+        }
+        program_headers
+            .iter()
+            .filter(|h| h.p_type == elf::program_header::PT_LOAD)
+            .find_map(|h| {
+                let delta = addr.checked_sub(h.p_vaddr)?;
+                if delta < h.p_filesz {
+                    h.p_offset.checked_add(delta)
+                } else {
+                    None
+                }
+            })
+            .unwrap_or(addr)
     }
 
     fn read_segment(&mut self, header: &elf::ProgramHeader) -> Result<Buf<'buf>, Error> {
